@@ -1,7 +1,7 @@
 (* flow driver: one command per line.
    escapes <tool>      -> callee/ord/class;...      (uncovered, not benign)
    sites <tool>        -> line:callee:ord:may1,may2:unc1,unc2;...
-   total | raising | benign | loops | maxnest | consuming *)
+   total | raising | benign | known | loops | maxnest | consuming *)
 let strs l = if l = [] then "~" else String.concat "," (List.map tok_of_str l)
 let handle l =
   match words l with
@@ -15,6 +15,7 @@ let handle l =
   | ["total"] -> String.concat ";" (List.map tok_of_str report_total)
   | ["raising"] -> String.concat ";" (List.map (fun (c, ks) -> tok_of_str c ^ "=" ^ strs ks) report_raising)
   | ["benign"] -> String.concat ";" (List.map (fun ((t, c), o) -> Printf.sprintf "%s/%s/%d" (tok_of_str t) (tok_of_str c) (int_of_n o)) report_benign)
+  | ["known"] -> String.concat ";" (List.map (fun (((t, c), o), k) -> Printf.sprintf "%s/%s/%d/%s" (tok_of_str t) (tok_of_str c) (int_of_n o) (tok_of_str k)) report_known)
   | ["loops"] ->
       String.concat ";" (List.map (fun ((((ln, f), a), b), c) ->
         Printf.sprintf "%d:%s:%s%s%s" (int_of_n ln) (tok_of_str f) (bool_tok a) (bool_tok b) (bool_tok c)) report_loops)
